@@ -103,6 +103,29 @@ type Spec struct{ Apps []App }
 
 // ---------------------------------------------------------------- rendering to Sysl text
 
+// spell writes a name the way Sysl source spells it: every byte outside [A-Za-z0-9_-] as %XX (the lexer's Name rule;
+// the listener un-escapes it again), so abstract names may contain '.', ':', ' ' and the like.
+func spell(n string) string {
+	var sb strings.Builder
+	for i := 0; i < len(n); i++ {
+		c := n[i]
+		if c >= 'a' && c <= 'z' || c >= 'A' && c <= 'Z' || c >= '0' && c <= '9' || c == '_' || c == '-' {
+			sb.WriteByte(c)
+		} else {
+			fmt.Fprintf(&sb, "%%%02X", c)
+		}
+	}
+	return sb.String()
+}
+
+func spellAll(ns []string) []string {
+	o := make([]string, len(ns))
+	for i, n := range ns {
+		o[i] = spell(n)
+	}
+	return o
+}
+
 func rAttrs(a Attrs) string {
 	if a.empty() {
 		return ""
@@ -124,7 +147,7 @@ func rStmts(sb *strings.Builder, ind string, body []Stmt) {
 		case 0:
 			fmt.Fprintf(sb, "%s%s\n", ind, s.Text)
 		case 1:
-			fmt.Fprintf(sb, "%s%s <- %s\n", ind, strings.Join(s.App, " :: "), s.Text)
+			fmt.Fprintf(sb, "%s%s <- %s\n", ind, strings.Join(spellAll(s.App), " :: "), s.Text)
 		default:
 			fmt.Fprintf(sb, "%sreturn %s\n", ind, s.Text)
 		}
@@ -144,7 +167,7 @@ func rRest(sb *strings.Builder, depth int, r *RNode) {
 }
 
 func rBlock(sb *strings.Builder, b Block) {
-	sb.WriteString(strings.Join(b.Parts, " :: "))
+	sb.WriteString(strings.Join(spellAll(b.Parts), " :: "))
 	if b.Long != "" {
 		fmt.Fprintf(sb, " \"%s\"", b.Long)
 	}
@@ -156,16 +179,16 @@ func rBlock(sb *strings.Builder, b Block) {
 	for _, m := range b.Members {
 		switch m.Kind {
 		case "type", "table":
-			fmt.Fprintf(sb, "    !%s %s%s:\n", m.Kind, m.Name, rAttrs(m.A))
+			fmt.Fprintf(sb, "    !%s %s%s:\n", m.Kind, spell(m.Name), rAttrs(m.A))
 			for _, f := range m.Fields {
 				opt := ""
 				if f.Opt {
 					opt = "?"
 				}
-				fmt.Fprintf(sb, "        %s <: %s%s%s\n", f.Name, f.Ty, opt, rAttrs(f.A))
+				fmt.Fprintf(sb, "        %s <: %s%s%s\n", spell(f.Name), f.Ty, opt, rAttrs(f.A))
 			}
 		case "enum":
-			fmt.Fprintf(sb, "    !enum %s%s:\n", m.Name, rAttrs(m.A))
+			fmt.Fprintf(sb, "    !enum %s%s:\n", spell(m.Name), rAttrs(m.A))
 			for _, it := range m.Items {
 				fmt.Fprintf(sb, "        %s: %d\n", it.Name, it.Val)
 			}
@@ -804,7 +827,10 @@ func caseTerm(l Layout, m *sysl.Module) string {
 
 // ---------------------------------------------------------------- generator
 
-var appPool = [][]string{{"Alpha"}, {"Beta"}, {"Ns", "Gamma"}, {"Ns", "Delta"}, {"Omega"}}
+var appPool = [][]string{{"Alpha"}, {"Beta"}, {"Ns", "Gamma"}, {"Ns", "Delta"}, {"Omega"}, {"Ns", "Ep.silon"}, {"Ze:ta"}}
+
+// name shapes that need %XX in the source (docs/docs/lang/identifiers.md); %d = running number
+var oddTypeNames = []string{"Order.L%d", "St:k%d", "T %d x", "T/%d", "T%d+"}
 var prims = []string{"int", "string", "bool", "date", "decimal", "datetime", "float"}
 var verbs = []string{"GET", "POST", "PUT", "DELETE", "PATCH"}
 
@@ -902,12 +928,18 @@ func (g gen) spec(maxApps, maxMembers int) Spec {
 			case k < 5: // type / table
 				nt++
 				m := Member{Kind: "type", Name: fmt.Sprintf("T%d", nt), A: g.attrs([]string{"x", "y"}, 2, 5)}
+				if g.r.Chance(1, 4) {
+					m.Name = fmt.Sprintf(oddTypeNames[g.r.Intn(len(oddTypeNames))], nt)
+				}
 				if g.r.Chance(3, 5) {
 					m.Kind = "table"
 				}
 				nf := 1 + g.r.Intn(5)
 				for f := 0; f < nf; f++ {
 					fd := Field{Name: fmt.Sprintf("f%d", f+1), Ty: prims[g.r.Intn(len(prims))], Opt: g.r.Chance(1, 5), A: g.attrs([]string{"x", "y"}, 1, 6)}
+					if g.r.Chance(1, 10) {
+						fd.Name = fmt.Sprintf("f.%d", f+1)
+					}
 					if g.r.Chance(1, 6) {
 						fd.Ty = fmt.Sprintf("T%d", 1+g.r.Intn(3))
 					}
@@ -920,6 +952,9 @@ func (g gen) spec(maxApps, maxMembers int) Spec {
 			case k < 6:
 				ne++
 				m := Member{Kind: "enum", Name: fmt.Sprintf("E%d", ne), A: g.attrs([]string{"x"}, 1, 6)}
+				if g.r.Chance(1, 5) {
+					m.Name = fmt.Sprintf("E.%d", ne)
+				}
 				ni := 1 + g.r.Intn(3)
 				for f := 0; f < ni; f++ {
 					m.Items = append(m.Items, Item{fmt.Sprintf("I%d", f), int64(g.r.Intn(100000))})
@@ -1296,6 +1331,11 @@ func corpusCases() []replay {
 		// three blocks, types introduced in the earlier ones (Appendix B)
 		{Note: "three blocks", Joined: one(Block{Parts: app, Members: []Member{ty("T1"), ty("T2"), ep("Ep1"), ty("T3")}}),
 			Split: one(Block{Parts: app, Members: []Member{ty("T1")}}, Block{Parts: app, Members: []Member{ty("T2"), ep("Ep1")}}, Block{Parts: app, Members: []Member{ty("T3")}})},
+		// a type whose name needs %XX in the source, fields spread over two blocks (seeded change C04_b_1)
+		{Note: "encoded type name split over two blocks",
+			Joined: one(Block{Parts: app, Members: []Member{{Kind: "type", Name: "Order.Line", Fields: []Field{{Name: "x", Ty: "int"}, {Name: "y", Ty: "string"}}}}}),
+			Split: one(Block{Parts: app, Members: []Member{{Kind: "type", Name: "Order.Line", Fields: []Field{{Name: "x", Ty: "int"}}}}},
+				Block{Parts: app, Members: []Member{{Kind: "type", Name: "Order.Line", Fields: []Field{{Name: "y", Ty: "string"}}}}})},
 		// REST sub-trees in re-opening blocks in imported files (Appendix B)
 		{Note: "rest sub-trees in imported re-opening blocks",
 			Joined: one(Block{Parts: app, Members: []Member{rest("u", "a", "GET"), rest("u", "b", "POST"), rest("v", "c", "GET")}}),
